@@ -94,7 +94,9 @@ class MeatAndDairy:
         # Human Inedible Produced Primary Dairy and Cattle Meat #########
         self.human_inedible_feed_dry_caloric_tons_list = np.array([])
         self.ratio_human_inedible_feed = np.array([])
-        n_years = self.NMONTHS / 12  # in a really short one, just make meat a year
+        # always lay out the full ten model years (8 + 8 x 12 + 16 months) and cut to NMONTHS below, so that a
+        # month belongs to the same model year whatever the horizon is
+        n_years = 10
         TESTING_FEW_MONTHS_FLAG = False
         if TESTING_FEW_MONTHS_FLAG:
             print(
@@ -163,6 +165,11 @@ class MeatAndDairy:
             assert (
                 0 <= ratio_human_inedible_feed <= 10000
             ), "Error: Unreasonable ratio of grass production"
+
+        if not TESTING_FEW_MONTHS_FLAG:
+            self.human_inedible_feed_dry_caloric_tons_list = (
+                self.human_inedible_feed_dry_caloric_tons_list[: self.NMONTHS]
+            )
 
         human_inedible_feed_dry_caloric_tons = Food(
             kcals=self.human_inedible_feed_dry_caloric_tons_list,
